@@ -180,7 +180,7 @@ def _task11(arg):
             viol.append(V('C11|%s|unbuildable' % expr, f"{expr} cannot be built/compiled: {e!r}", 'import re\nre.compile(str(%s), 24)' % expr))
             continue
         texts = universe(extra, L)
-        small = [t for t in texts if len(t) <= 3][:60] + [t for t in texts if len(t) == L][:20]
+        small = [t for t in texts if len(t) <= 3][:60] + [t for t in texts if len(t) == L][:20] + ['A', 'AB', 'aB', 'Ab a', 'BA']
         cnt['texts'] += len(texts)
         # closure of the abstract state graph: one full sweep per distinct abstract state
         swept = {}
@@ -220,6 +220,38 @@ def _task11(arg):
                             seen_hist.add(h2)
                             nxt.append(h2)
             frontier = nxt
+        # objects derived from a compiled (or once-compiled) parent are ordinary patterns of their own
+        derivs = [('group(True)', lambda q: q.group(True)), ('group()', lambda q: q.group()), ('capture()', lambda q: q.capture()),
+                  ("capture('z')", lambda q: q.capture('z')), ('optional()', lambda q: q.optional()), ("+ 'a'", lambda q: q + 'a'),
+                  ('exactly(1)', lambda q: q.exactly(1)), ("concat('')", lambda q: q.concat('')), ('match_at_line_start()', lambda q: q.match_at_line_start()),
+                  ("either('b')", lambda q: q.either('b'))]
+        for prep_name, prep in (('compile', lambda q: q.compile()), ('gcp_keep', lambda q: q.get_compiled_pattern(False)),
+                                ('gcp_discard', lambda q: q.get_compiled_pattern(True))):
+            for dname, dfn in derivs:
+                try:
+                    parent = build(expr)
+                    prep(parent)
+                    d = dfn(parent)
+                    dre = re.compile(str(d), FLAGS)
+                except Exception:  # noqa: BLE001
+                    continue        # not every derivation is defined for every pattern (e.g. duplicate names)
+                cnt['histories'] += 1
+                for t in small:
+                    cnt['observations'] += 2
+                    if d.get_matches_and_pos(t) != [(m.group(0), m.start(), m.end()) for m in dre.finditer(t)] or \
+                            d.is_exact_match(t) != bool(dre.fullmatch(t)):
+                        viol.append(V('C11|%s|derived|%s|%s' % (expr, prep_name, dname),
+                                      f"p = {expr}; p.{prep_name}; d = p.{dname}: d.get_matches_and_pos({t!r}) = {d.get_matches_and_pos(t)!r}, "
+                                      f"re on {str(d)!r} gives {[(m.group(0), m.start(), m.end()) for m in dre.finditer(t)]!r}",
+                                      'import re\np = %s\n%s\nd = %s\ncre = re.compile(str(d), 24)\nt = %r\n'
+                                      'assert d.get_matches_and_pos(t) == [(m.group(0), m.start(), m.end()) for m in cre.finditer(t)]\n'
+                                      'assert d.is_exact_match(t) == bool(cre.fullmatch(t))'
+                                      % (expr, {'compile': 'p.compile()', 'gcp_keep': 'p.get_compiled_pattern(False)',
+                                                'gcp_discard': 'p.get_compiled_pattern(True)'}[prep_name],
+                                         {'group(True)': 'p.group(True)', 'group()': 'p.group()', 'capture()': 'p.capture()', "capture('z')": "p.capture('z')",
+                                          'optional()': 'p.optional()', "+ 'a'": "p + 'a'", 'exactly(1)': 'p.exactly(1)', "concat('')": "p.concat('')",
+                                          'match_at_line_start()': 'p.match_at_line_start()', "either('b')": "p.either('b')"}[dname], t)))
+                        break
     re.purge()
     return viol, cnt, len(states_seen)
 
